@@ -117,7 +117,7 @@ func compare(a, b interface{}, c collate) int {
 		case int64:
 			return cmpInt64(at, bt)
 		case float64:
-			return cmpFloat64(float64(at), bt)
+			return cmpIntFloat(at, bt)
 		case string, []byte:
 			return -1
 		default:
@@ -128,7 +128,7 @@ func compare(a, b interface{}, c collate) int {
 		case nil:
 			return 1
 		case int64:
-			return cmpFloat64(at, float64(bt))
+			return -cmpIntFloat(bt, at)
 		case float64:
 			return cmpFloat64(at, bt)
 		case string, []byte:
@@ -171,6 +171,30 @@ func cmpInt64(a, b int64) int {
 	default:
 		return 1
 	}
+}
+
+// cmpIntFloat compares an integer with a float exactly: converting the integer
+// to float64 first would make e.g. 1<<53 + 1 equal to 1<<53. Same logic as
+// sqlite3IntFloatCompare() in SQLite.
+func cmpIntFloat(i int64, f float64) int {
+	if f != f {
+		// NaN: SQLite stores those as NULL
+		return 1
+	}
+	if f < -9223372036854775808.0 {
+		return 1
+	}
+	if f >= 9223372036854775808.0 {
+		return -1
+	}
+	y := int64(f)
+	if i < y {
+		return -1
+	}
+	if i > y {
+		return 1
+	}
+	return cmpFloat64(float64(i), f)
 }
 
 func cmpFloat64(a, b float64) int {
